@@ -298,7 +298,7 @@ fn check_c18(tier: Tier) {
         groups.push((3, 1, None));
         groups.push((3, 2, Some(2)));
     } else {
-        groups.push((3, 1, Some(2)));
+        groups.push((3, 1, None));
     }
     let mut total = vh::c18::Out18::default();
     let mut group_json = Vec::new();
